@@ -46,6 +46,12 @@ struct CMap {
   _Bool g_whit;       /* WHIT: the key matches the path from this node down to W level by level, W is at the key's last
                          level and holds a subject */
   size_t g_fkey, g_fidx;   /* for the string g_fkey: g_fidx is the index of the child with that name, or len */
+  /* ---- ghost for shrink (C13): liveness of the subtree ---- */
+  _Bool g_hsubs;      /* the subject of this node (if any) has subscriptions */
+  _Bool g_clive;      /* some child subtree is live */
+  _Bool g_live;       /* LIVE: this subtree holds a subject with subscriptions = (subject && g_hsubs) || g_clive */
+  size_t g_lchild;    /* witness: index of a live child when g_clive */
+  _Bool g_full;       /* FULL: the pattern under consideration is a wildcard at every level down to the bottom of this subtree */
 };
 /* what dereferencing a map iterator yields: std::pair<const std::string, Node>, the node behind a pointer into kids
  * (the lowering maps pair.second to *pair.kid, @field_map in contracts/router.spec) */
@@ -62,6 +68,19 @@ size_t g_total;              /* number of Subject::notify calls made */
 size_t g_w_notified;         /* ... of them on W's subject */
 int g_w_arg;                 /* the argument W's subject received */
 size_t g_ci;                 /* an arbitrary child index (ghost index instead of a quantifier) */
+_Bool g_wlive;               /* W's subject has subscriptions (W is live) */
+/* shrink is proved in four cases, one tracked child each (a query that tracks all four exhausts the memory):
+ * g_case 0: g_tx is an arbitrary child; 1: the child leading to W; 2: the liveness witness; 3: g_tx is a PROPHECY of the
+ * old index of the first child that std::erase_if keeps (when it keeps any) */
+enum { CASE_ANY = 0, CASE_W = 1, CASE_L = 2, CASE_FIRST = 3 };
+int g_case; size_t g_tx;
+size_t g_tx_new; _Bool g_tx_kept, g_erase_ran;     /* where std::erase_if put the tracked entry (kept == 0: erased) */
+/* pre-state values bound in requires clauses (an __CPROVER_old of an indexed element is evaluated eagerly) */
+size_t g_key0; void *g_subj0; size_t g_len0; _Bool g_live0, g_match0;
+/* MAP_WRITEBACK (harnesses of functions that modify child nodes): the entry a map iterator is dereferenced at is handed
+ * out as a copy in the scratch object g_scr and written back when the iterator moves on / before the map is used again
+ * (a write through a pointer with a symbolic offset into the entry array is a byte-level update of the whole array) */
+struct Node *g_scr; _Bool g_scr_valid; size_t g_scr_pos;
 _Bool g_thrown;
 static void X_throw(const char *what) { g_thrown = 1; }
 static void *X_operator_new(size_t n) { void *p = malloc(n); __CPROVER_assume(p != 0); return p; }
